@@ -2,6 +2,7 @@
     the shortest/longest matching prefix/suffix, the empty one included.
     Only pinned statements, [exact], and [Print Assumptions]. *)
 From BV Require Import Base.Prelude ParamExp.Remove ParamExp.RemoveProofs ParamExp.Param ParamExp.ParamSpec ParamExp.ParamProofs.
+From BV Require Import gen.C06ParamOps ParamExp.OpsOrder.
 
 (** ** The bash-independent clause, for every matcher [m] and every string [s]. *)
 
@@ -115,6 +116,14 @@ Theorem c06_substring_no_panic : forall sh r off olen, fits sh r -> substring' s
 Proof. exact substring_no_panic. Qed.
 Print Assumptions c06_substring_no_panic.
 
+(** The unchanged arm, outside its two known classes (negative length; non-ASCII scalar word). *)
+Theorem c06_substring_outside_known : forall sh r off olen, fits sh r ->
+  (forall l, olen = Some l -> 0 <= l) ->
+  (forall w, is_list r = false -> words sh r = Some [w] -> ascii w = true) ->
+  obs (substring sh r off olen) = substring_spec sh r off olen.
+Proof. exact substring_outside_known. Qed.
+Print Assumptions c06_substring_outside_known.
+
 Theorem c06_substring_refuted : exists sh r off olen, substring sh r off olen = Panic.
 Proof. exact substring_refuted. Qed.
 Print Assumptions c06_substring_refuted.
@@ -123,6 +132,17 @@ Theorem c06_substring_negative_length_refuted :
   obs (substring (sh_scalar abcdefgh) RNamed 2 (Some (-3))) <> substring_spec (sh_scalar abcdefgh) RNamed 2 (Some (-3)).
 Proof. exact substring_negative_length_refuted. Qed.
 Print Assumptions c06_substring_negative_length_refuted.
+
+(** ** operator recognition order of the grammar (table regenerated from word.rs on every run):
+    no operator literal is tried before a longer one it is a proper prefix of. *)
+Theorem c06_ops_longest_first : forall i j a b, (i < j)%nat ->
+  nth_error param_ops i = Some a -> nth_error param_ops j = Some b -> proper_prefix a b = false.
+Proof. exact ops_longest_first. Qed.
+Print Assumptions c06_ops_longest_first.
+
+Theorem c06_modelled_ops_recognised : forallb (fun o => existsb (str_eqb o) param_ops) modelled_ops = true.
+Proof. exact modelled_ops_recognised. Qed.
+Print Assumptions c06_modelled_ops_recognised.
 
 (** ** non-vacuity *)
 Theorem c06_hypotheses_satisfiable :
